@@ -36,6 +36,9 @@ theorem step_of_frame {c : Conn} {b rest : Bytes} {m : Msg} (hs : c.spool = b ++
 /-- no option of the message is critical (odd number) -/
 def noCritical (opts : List Opt) : Prop := ∀ o ∈ opts, o.num % 2 = 0
 
+instance (opts : List Opt) : Decidable (noCritical opts) := by
+  unfold noCritical; exact inferInstance
+
 theorem csmOpts_noCritical (s : Settings) {opts : List Opt} (h : noCritical opts) :
     (csmOpts s opts).2 = [] := by
   induction opts generalizing s with
